@@ -415,6 +415,220 @@ Proof.
   rewrite IH, transmission_pupil_function. reflexivity.
 Qed.
 
+(* ------------------------------------------------------------------ polychromatic images *)
+(* the fields propagate_dft leaves behind are array fields inside the output array (what Wavefront.insert needs) *)
+Lemma propagate_fields_ok shift_of (w w' : wavefront S) dur duc shape pshape os mask dxr dxc Sr Sc Pr Pc b :
+  wptype w <> PtNone -> wps w = Some (dxr, dxc) ->
+  (forall f, In f (wdata w) -> exists a, fd f = D2 a) ->
+  match shape with None => wshape w | Some s => s end = (Sr, Sc) ->
+  match pshape with None => (Sr, Sc) | Some p => p end = (Pr, Pc) ->
+  0 < Sr -> 0 < Sc -> 0 < Pr -> 0 < Pc -> 1 <= os -> Sr * os < maxsize -> Sc * os < maxsize ->
+  (forall k, mask = Some k -> mnr k = Sr * os /\ mnc k = Sc * os) ->
+  mask_bbox mask (Sr * os) (Sc * os) = Ok b ->
+  propagate_dft sq shift_of w dur duc shape pshape os mask = Ok w' ->
+  forall g, In g (wdata w') -> fsized g /\ fbounded S g.
+Proof.
+  intros Hpt Hps Hd Hshape Hpshape HSr HSc HPr HPc Hos HbR HbC Hm Hb Hw.
+  set (ar := dft_alpha1 dxr dur (wwl w) (wfocal w) os). set (ac := dft_alpha1 dxc duc (wwl w) (wfocal w) os).
+  assert (HRo : 0 < Sr * os) by nia. assert (HCo : 0 < Sc * os) by nia.
+  assert (HPro : 0 < Pr * os) by nia. assert (HPco : 0 < Pc * os) by nia.
+  destruct (out_extent_spec (Sr * os) (Sc * os) mask b HRo HCo Hm Hb) as (oe & Hoe & Hv & Hin).
+  pose proof (mask_bbox_in_array mask (Sr * os) (Sc * os) b HRo HCo Hm Hb) as Hbb.
+  destruct (prop_fields_spec S Sring Skernel sq shift_of oe (Pr * os) (Pc * os) ar ac (wdata w) Hv HPro HPco Hd) as (l & Hl & Sl & _).
+  pose proof (prop_fields_extent S sq shift_of oe (Pr * os) (Pc * os) (Some (ar, ac)) (wdata w) Hv HPro HPco l Hl) as Xl.
+  assert (Hoeb : esub oe (- ((Sr * os) / 2), Sr * os - 1 - (Sr * os) / 2, - ((Sc * os) / 2), Sc * os - 1 - (Sc * os) / 2)).
+  { destruct oe as [[[o1 o2] o3] o4]. destruct b as [[[r1 r2] c1] c2]. cbn in Hv.
+    pose proof (Hin (o1 + (Sr * os) / 2) (o3 + (Sc * os) / 2)) as C1.
+    pose proof (Hin (o2 + (Sr * os) / 2) (o4 + (Sc * os) / 2)) as C2.
+    unfold inE, inb in C1, C2. unfold esub.
+    set (h1 := (Sr * os) / 2) in *. set (h2 := (Sc * os) / 2) in *. clearbody h1 h2. lia. }
+  assert (El : wdata w' = l).
+  { unfold propagate_dft in Hw. destruct (wptype w) eqn:Ept; [congruence| |]; cbn [propagate_ptype rbind] in Hw;
+      rewrite Hshape, Hpshape, Hoe in Hw; cbn [rbind] in Hw; rewrite Hps in Hw; fold ar ac in Hw; rewrite Hl in Hw;
+      cbn [rbind] in Hw; injection Hw as <-; reflexivity. }
+  rewrite El. intros g Hg. split.
+  - destruct (Sl g Hg) as (d & Ed & Hd1 & Hd2). unfold fsized. rewrite Ed. now split.
+  - specialize (Xl g Hg). unfold fbounded.
+    destruct (fextent g) as [[[g1 g2] g3] g4]. destruct oe as [[[o1 o2] o3] o4]. unfold esub in *.
+    set (h1 := (Sr * os) / 2) in *. set (h2 := (Sc * os) / 2) in *.
+    assert (0 <= h1 <= Sr * os) by (subst h1; lia). assert (0 <= h2 <= Sc * os) by (subst h2; lia).
+    clearbody h1 h2. lia.
+Qed.
+
+(* one monochromatic image added into an accumulator with a weight: Wavefront.insert(out, weight) after
+   propagate_dft(Wavefront * P1 * ... * Pk) adds weight * |field|^2 at every sample *)
+Theorem chain_propagate_insert (ps : list (plane S)) (w0 w1 : pwf S) dur duc shape pshape os dxr dxc n m Sr Sc Pr Pc
+        (out : arr S) (wt : S) :
+  chain_multiply ps w0 = Ok w1 ->
+  pw_shape w1 = Some (n, m) -> pw_pix w1 = Some (dxr, dxc) -> pw_focal w1 <> FNone ->
+  (forall f, In f (pw_data w1) -> fsized f) ->
+  0 < n -> 0 < m ->
+  (forall r c, inr n (r + n / 2) && inr m (c + m / 2) = false -> embed_sum (pw_data w1) r c = k0) ->
+  match shape with None => (n, m) | Some s => s end = (Sr, Sc) ->
+  match pshape with None => (Sr, Sc) | Some p => p end = (Pr, Pc) ->
+  0 < Sr -> 0 < Sc -> 0 < Pr -> 0 < Pc -> 1 <= os -> Sr * os < maxsize -> Sc * os < maxsize ->
+  nr out = Sr * os -> nc out = Sc * os ->
+  exists v fld o, chain_propagate sq ps w0 dur duc shape pshape os = Ok v /\ wfield v = Ok fld /\
+    accumulate (wdata v) out wt = Ok o /\ nr o = Sr * os /\ nc o = Sc * os /\
+    forall i j, 0 <= i < Sr * os -> 0 <= j < Sc * os -> get o i j = (get out i j + norm2 (get fld i j) * wt)%K.
+Proof.
+  intros Hch Hsh Hpx Hfo Hsz Hn Hm Hsup Hshape Hpshape HSr HSc HPr HPc Hos HbR HbC No Mo.
+  destruct (chain_propagate_samples ps w0 w1 dur duc shape pshape os dxr dxc n m Sr Sc Pr Pc
+              Hch Hsh Hpx Hfo Hsz Hn Hm Hsup Hshape Hpshape HSr HSc HPr HPc Hos HbR HbC)
+    as (v & fld & _ & Ev & Ff & _ & Nf & Mf & _ & _ & _).
+  assert (HRo : 0 < Sr * os) by nia. assert (HCo : 0 < Sc * os) by nia.
+  pose proof Ev as Ev'. unfold chain_propagate in Ev'. rewrite Hch in Ev'. cbn [rbind] in Ev'.
+  rewrite (to_wavefront_ok w1 n m PtPupil Hsh Hfo) in Ev'. cbn [rbind] in Ev'.
+  set (w2 := mkWf (pw_lam w1) (pw_pix w1) (focal_opt (pw_focal w1)) (n, m) PtPupil (pw_data w1)) in *.
+  assert (Hd2 : forall f, In f (wdata w2) -> exists a, fd f = D2 a).
+  { intros f Hf. destruct (fsized_sized S f (Hsz f Hf)) as (a & Ea & _). now exists a. }
+  pose proof (propagate_fields_ok (@no_shift S) w2 v dur duc shape pshape os None dxr dxc Sr Sc Pr Pc
+                (0, Sr * os - 1, 0, Sc * os - 1) ltac:(discriminate) Hpx Hd2 Hshape Hpshape HSr HSc HPr HPc Hos HbR HbC
+                ltac:(discriminate) eq_refl Ev') as Hok.
+  destruct (accumulate_spec S Sring (wdata v) out wt ltac:(lia) ltac:(lia) Hok) as (o & Eo & No' & Mo' & Go).
+  destruct (PlaneP.render_spec S Sring (wdata v) (Sr * os) (Sc * os) HRo HCo (fun g Hg => proj1 (Hok g Hg)))
+    as (fa & Efa & _ & _ & Gfa).
+  assert (Esh : wshape v = (Sr * os, Sc * os)).
+  { destruct (propagate_metadata S sq (@no_shift S) w2 v dur duc shape pshape os None Ev') as (_ & _ & _ & _ & E).
+    rewrite E. change (wshape w2) with (n, m). now rewrite Hshape. }
+  exists v, fa, o. split; [exact Ev|]. split; [unfold wfield; rewrite Esh; exact Efa|].
+  split; [exact Eo|]. split; [congruence|]. split; [congruence|].
+  intros i j Hi Hj. rewrite Go by lia. rewrite No, Mo. now rewrite <- Gfa by assumption.
+Qed.
+
+(* the loop a user writes for a polychromatic image:
+     for wavelength, weight in spectrum:  propagate_dft(Wavefront(wavelength) * P, ...).insert(out, weight)          *)
+Definition broadband_step (P : plane S) pix foc dur duc shape pshape os (acc : result (arr S)) (lw : Qc * S) : result (arr S) :=
+  rbind acc (fun o =>
+  rbind (chain_propagate sq [P] (pwf_init (fst lw) pix foc []) dur duc shape pshape os) (fun v =>
+  accumulate (wdata v) o (snd lw))).
+Definition broadband (P : plane S) pix foc dur duc shape pshape os (spec : list (Qc * S)) (out : arr S) : result (arr S) :=
+  fold_left (broadband_step P pix foc dur duc shape pshape os) spec (Ok out).
+
+(* the monochromatic field of Chain_image_of_pupil as a function of the wavelength *)
+Definition mono_field (P : plane S) z dur duc os dxr dxc n m Sr Sc Pr Pc (lam : Qc) (i j : Z) : S :=
+  let ar := ((dxr * dur) / (lam * z * zq os))%Qc in let ac := ((dxc * duc) / (lam * z * zq os))%Qc in
+  let u := i - (Sr * os) / 2 in let v := j - (Sc * os) / 2 in
+  if inE (array_extent (Pr * os) (Pc * os) 0 0) u v
+  then (image_sum n m (pupil_function P lam) ar ac u v * sq (qabs (ar * ac)%Qc))%K else k0.
+
+Lemma fold_left_err {A} (stp : result (arr S) -> A -> result (arr S)) (l : list A) e :
+  (forall x, stp (Err e) x = Err e) -> fold_left stp l (Err e) = Err e.
+Proof. intros H. induction l as [|x l IH]; cbn [fold_left]; [reflexivity|]. now rewrite H. Qed.
+
+(* C07 o C02 over a sampled spectrum: the polychromatic image is the weighted sum over the wavelengths of the squared
+   moduli of the monochromatic fields, each the transform of the pupil function at its own wavelength (its own phasor
+   exp(2 pi i W / lambda) and its own sampling ratio alpha(lambda)) *)
+Theorem broadband_of_plane (P : plane S) pix foc z dur duc shape pshape os dxr dxc n m Sr Sc Pr Pc :
+  plane_ok P n m -> 0 < n -> 0 < m ->
+  mul_pixelscale (pl_pix P) (pix_broadcast pix) = Ok (Some (dxr, dxc)) ->
+  pl_focal P = Some (FVal z) ->
+  match shape with None => (n, m) | Some s => s end = (Sr, Sc) ->
+  match pshape with None => (Sr, Sc) | Some p => p end = (Pr, Pc) ->
+  0 < Sr -> 0 < Sc -> 0 < Pr -> 0 < Pc -> 1 <= os -> Sr * os < maxsize -> Sc * os < maxsize ->
+  forall (spec : list (Qc * S)) (out : arr S), nr out = Sr * os -> nc out = Sc * os ->
+  exists o, broadband P pix foc dur duc shape pshape os spec out = Ok o /\ nr o = Sr * os /\ nc o = Sc * os /\
+    forall i j, 0 <= i < Sr * os -> 0 <= j < Sc * os ->
+      get o i j = (get out i j +
+        fold_right (fun lw acc => (norm2 (mono_field P z dur duc os dxr dxc n m Sr Sc Pr Pc (fst lw) i j) * snd lw + acc)%K) k0 spec)%K.
+Proof.
+  intros Hok Hn Hm Hpx Hfo Hshape Hpshape HSr HSc HPr HPc Hos HbR HbC.
+  induction spec as [|[lam wt] spec IH]; intros out No Mo.
+  - exists out. split; [reflexivity|]. split; [exact No|]. split; [exact Mo|]. intros i j _ _. cbn [fold_right]. ring.
+  - (* the monochromatic step: Chain_image_of_plane and the insertion lemma speak about the same call *)
+    set (w0 := pwf_init (S := S) lam pix foc []).
+    destruct (plane_multiply_spec S Sring P w0 n m (Some (dxr, dxc)) Hok (fresh_valid lam pix foc []) Hpx)
+      as (w1 & E1 & L1 & P1 & S1 & F1 & Z1 & G1).
+    assert (Hch : chain_multiply [P] w0 = Ok w1) by (cbn [chain_multiply]; rewrite E1; reflexivity).
+    rewrite Hfo in F1. change (pw_lam w0) with lam in L1, G1.
+    assert (Hsup : forall r c, inr n (r + n / 2) && inr m (c + m / 2) = false -> embed_sum (pw_data w1) r c = k0).
+    { intros r c E. rewrite G1, (transmission_outside P lam n m r c (ok_layers S P n m Hok) E). ring. }
+    assert (Hfn1 : pw_focal w1 <> FNone) by (rewrite F1; discriminate).
+    destruct (chain_propagate_insert [P] w0 w1 dur duc shape pshape os dxr dxc n m Sr Sc Pr Pc out wt
+                Hch S1 P1 Hfn1 Z1 Hn Hm Hsup Hshape Hpshape HSr HSc HPr HPc Hos HbR HbC No Mo)
+      as (v & fld & o1 & Ev & Ff & Eo & N1 & M1 & G).
+    destruct (image_of_plane P lam pix foc (FVal z) dur duc shape pshape os dxr dxc n m Sr Sc Pr Pc
+                Hok Hn Hm Hpx Hfo ltac:(discriminate) Hshape Hpshape HSr HSc HPr HPc Hos HbR HbC)
+      as (v' & fld' & oi' & Ev' & Ff' & _ & _ & _ & _ & _ & GI).
+    fold w0 in Ev'. rewrite Ev in Ev'. injection Ev' as Evv. subst v'. rewrite Ff in Ff'. injection Ff' as Eff. subst fld'.
+    destruct (IH o1 N1 M1) as (o & Eo2 & No2 & Mo2 & Go2).
+    exists o. split.
+    { unfold broadband. cbn [fold_left]. unfold broadband_step at 2. cbn [rbind fst snd]. fold w0. rewrite Ev. cbn [rbind].
+      rewrite Eo. exact Eo2. }
+    split; [exact No2|]. split; [exact Mo2|]. intros i j Hi Hj.
+    rewrite (Go2 i j Hi Hj), (G i j Hi Hj). cbn [fold_right fst snd].
+    destruct (GI i j Hi Hj) as [GIa _]. rewrite GIa. unfold mono_field. cbn [focal_opt dft_alpha1]. ring.
+Qed.
+
+(* linearity of the total: sum over the image of a weighted sum of images = weighted sum of the totals *)
+Lemma total_of_weighted_sum {A} (t : A -> Z -> Z -> S) (wgt : A -> S) (l : list A) R C :
+  sumZ R (fun i => sumZ C (fun j => fold_right (fun x acc => (t x i j * wgt x + acc)%K) k0 l))
+  = fold_right (fun x acc => (sumZ R (fun i => sumZ C (fun j => t x i j)) * wgt x + acc)%K) k0 l.
+Proof.
+  induction l as [|x l IH]; cbn [fold_right].
+  - rewrite (sumZ_zero_ext S Sring); [reflexivity|]. intros i _. apply (sumZ_zero S Sring).
+  - rewrite <- IH, <- (sumZ_scale_r S Sring), <- (sumZ_add S Sring). apply sumZ_ext; intros i _.
+    rewrite <- (sumZ_scale_r S Sring), <- (sumZ_add S Sring). reflexivity.
+Qed.
+
+Lemma fold_right_ext {A} (f1 f2 : A -> S -> S) (l : list A) a : (forall x y, f1 x y = f2 x y) ->
+  fold_right f1 a l = fold_right f2 a l.
+Proof. intros H. induction l as [|x l IH]; cbn [fold_right]; [reflexivity|]. now rewrite IH, H. Qed.
+
+(* the same for a monolithic pupil, spelled out: A M exp(2 pi i W / lambda) *)
+Definition mono_field_pupil (P : plane S) (g : garr bool) z dur duc os dxr dxc n m Sr Sc Pr Pc (lam : Qc) (i j : Z) : S :=
+  let ar := ((dxr * dur) / (lam * z * zq os))%Qc in let ac := ((dxc * duc) / (lam * z * zq os))%Qc in
+  let u := i - (Sr * os) / 2 in let v := j - (Sc * os) / 2 in
+  if inE (array_extent (Pr * os) (Pc * os) 0 0) u v
+  then (sumZ n (fun x => sumZ m (fun y =>
+          (amp_at (pl_amp P) x y * kofb (pget g x y) * ke (- (opd_at (pl_opd P) x y / lam))%Qc
+           * ke (ar * zq (x - n / 2) * zq u + ac * zq (y - m / 2) * zq v)%Qc)%K))
+        * sq (qabs (ar * ac)%Qc))%K
+  else k0.
+
+Lemma mono_field_is_pupil (P : plane S) g z dur duc os dxr dxc n m Sr Sc Pr Pc lam i j :
+  plane_ok P n m -> pl_mask P = PM2 g ->
+  mono_field P z dur duc os dxr dxc n m Sr Sc Pr Pc lam i j = mono_field_pupil P g z dur duc os dxr dxc n m Sr Sc Pr Pc lam i j.
+Proof. intros Hok Eg. unfold mono_field, mono_field_pupil. cbv zeta. destr_if; [|reflexivity]. f_equal.
+  unfold image_sum. apply sumZ_ext; intros x Hx. apply sumZ_ext; intros y Hy.
+  now rewrite (pupil_function_mono P lam n m g x y Hok Eg Hx Hy). Qed.
+
+(* Chain_broadband: the polychromatic image accumulated into a zero array, and its total *)
+Theorem broadband_of_pupil (P : plane S) (g : garr bool) pix foc z dur duc shape pshape os dxr dxc n m Sr Sc Pr Pc
+        (spec : list (Qc * S)) :
+  plane_ok P n m -> pl_mask P = PM2 g -> 0 < n -> 0 < m ->
+  mul_pixelscale (pl_pix P) (pix_broadcast pix) = Ok (Some (dxr, dxc)) ->
+  pl_focal P = Some (FVal z) ->
+  match shape with None => (n, m) | Some s => s end = (Sr, Sc) ->
+  match pshape with None => (Sr, Sc) | Some p => p end = (Pr, Pc) ->
+  0 < Sr -> 0 < Sc -> 0 < Pr -> 0 < Pc -> 1 <= os -> Sr * os < maxsize -> Sc * os < maxsize ->
+  exists o, broadband P pix foc dur duc shape pshape os spec (azeros (Sr * os) (Sc * os)) = Ok o /\
+    nr o = Sr * os /\ nc o = Sc * os /\
+    (forall i j, 0 <= i < Sr * os -> 0 <= j < Sc * os ->
+       get o i j = fold_right (fun lw acc =>
+         (norm2 (mono_field_pupil P g z dur duc os dxr dxc n m Sr Sc Pr Pc (fst lw) i j) * snd lw + acc)%K) k0 spec) /\
+    sumZ (Sr * os) (fun i => sumZ (Sc * os) (fun j => get o i j))
+    = fold_right (fun lw acc =>
+        (sumZ (Sr * os) (fun i => sumZ (Sc * os) (fun j =>
+           norm2 (mono_field_pupil P g z dur duc os dxr dxc n m Sr Sc Pr Pc (fst lw) i j))) * snd lw + acc)%K) k0 spec.
+Proof.
+  intros Hok Eg Hn Hm Hpx Hfo Hshape Hpshape HSr HSc HPr HPc Hos HbR HbC.
+  destruct (broadband_of_plane P pix foc z dur duc shape pshape os dxr dxc n m Sr Sc Pr Pc
+              Hok Hn Hm Hpx Hfo Hshape Hpshape HSr HSc HPr HPc Hos HbR HbC spec (azeros (Sr * os) (Sc * os)) eq_refl eq_refl)
+    as (o & Eo & No & Mo & G).
+  assert (G' : forall i j, 0 <= i < Sr * os -> 0 <= j < Sc * os ->
+       get o i j = fold_right (fun lw acc =>
+         (norm2 (mono_field_pupil P g z dur duc os dxr dxc n m Sr Sc Pr Pc (fst lw) i j) * snd lw + acc)%K) k0 spec).
+  { intros i j Hi Hj. rewrite (G i j Hi Hj). cbn [azeros get].
+    rewrite (fold_right_ext _ (fun lw acc =>
+         (norm2 (mono_field_pupil P g z dur duc os dxr dxc n m Sr Sc Pr Pc (fst lw) i j) * snd lw + acc)%K))
+      by (intros x y; now rewrite (mono_field_is_pupil P g) by assumption). ring. }
+  exists o. repeat (split; [assumption|]).
+  rewrite <- (total_of_weighted_sum (fun lw i j => norm2 (mono_field_pupil P g z dur duc os dxr dxc n m Sr Sc Pr Pc (fst lw) i j))
+               (fun lw => snd lw)).
+  apply sumZ_ext; intros i Hi. apply sumZ_ext; intros j Hj. now apply G'.
+Qed.
+
 End ChainGen.
 
 (* ================================================================== C09 o C02: FFT path = DFT path *)
